@@ -184,7 +184,7 @@ func runGated(kA, kB string, k, m int, tok string) (ra, rb gatedResult, evA, evB
 	return ra, rb, ga.count, gb.count
 }
 
-var gatedKinds = []string{"slice2t", "struct2t", "plain", "ctxval", "probectx", "fail1", "fmtopt", "fail2", "coerce", "custom", "catch", "badjson", "nulljson", "vslice", "freshfail", "pterr", "list2", "listS", "primcatch", "vnesteddef", "tdestA", "tdestB"}
+var gatedKinds = []string{"okjson", "okjson2", "slice2t", "struct2t", "plain", "ctxval", "probectx", "fail1", "fmtopt", "fail2", "coerce", "custom", "catch", "badjson", "nulljson", "vslice", "freshfail", "pterr", "list2", "listS", "primcatch", "vnesteddef", "tdestA", "tdestB"}
 
 func gatedEpisodes(r *rand.Rand, maxPairs int, stats map[string]int, distinct map[string]bool, samples *[]string) {
 	pairs := [][2]string{}
@@ -196,6 +196,8 @@ func gatedEpisodes(r *rand.Rand, maxPairs int, stats map[string]int, distinct ma
 	r.Shuffle(len(pairs), func(i, j int) { pairs[i], pairs[j] = pairs[j], pairs[i] })
 	if maxPairs > 0 && maxPairs < len(pairs) {
 		pairs = pairs[:maxPairs]
+		// pairs every run has, whatever the sample: two decodable JSON requests, a catching call beside root-level tests
+		pairs = append(pairs, [2]string{"okjson", "okjson2"}, [2]string{"okjson2", "okjson"}, [2]string{"catch", "slice2t"}, [2]string{"struct2t", "catch"})
 	}
 	ep := 0
 	for _, pr := range pairs {
@@ -446,7 +448,7 @@ var schListStr = z.String().Min(5).Email()
 
 var schPathOK = z.Struct(z.Schema{"a": z.Int().GT(0, z.IssuePath("elsewhere")).LT(100, z.IssuePath("other.place"))})
 
-var callKinds = []string{"slice2t", "struct2t", "issuepathok", "listS", "tdestA", "tdestB", "panicnested", "vnesteddef", "nested", "nestedelem", "badjson", "nulljson", "okjson", "plain", "ctxval", "probectx", "fail1", "fmtopt", "fail2", "coerce", "custom", "catch",
+var callKinds = []string{"okjson2", "slice2t", "struct2t", "issuepathok", "listS", "tdestA", "tdestB", "panicnested", "vnesteddef", "nested", "nestedelem", "badjson", "nulljson", "okjson", "plain", "ctxval", "probectx", "fail1", "fmtopt", "fail2", "coerce", "custom", "catch",
 	"vslice", "vptrcatch", "vptrnil", "pterr", "list2", "primcatch", "primcatchok", "stest", "pnotnil", "scoerce", "slicetest", "freshfail", "freshvalidate"}
 
 // a schema that is BUILT for the current episode and first used by the goroutines of that episode
@@ -536,6 +538,8 @@ func doCall(kind, tok string) callOut {
 		m = jsonCall(`null`, &d)
 	case "okjson":
 		m = jsonCall(`{"a": 3, "b": [1]}`, &d)
+	case "okjson2": // another decodable body: whatever two overlapping requests share, each reads its own document
+		m = jsonCall(`{"b": [7, 8], "a": 30}`, &d)
 	case "fail1":
 		m = schFail1.Parse(map[string]any{"a": 1}, &d)
 	case "fmtopt":
